@@ -166,6 +166,11 @@ fn h3_decode(input: &[u8], split: Option<usize>) -> Result<(Option<u64>, usize),
 }
 
 fn check_decode(input: &[u8], acc: &mut Acc) {
+    check_decode_d(input, false, acc)
+}
+
+/// `dense`: part of a dense block enumeration (distinct by construction): counted, not fingerprinted
+fn check_decode_d(input: &[u8], dense: bool, acc: &mut Acc) {
     let want = rv::decode(input);
     let mut h = Fnv::new();
     h.str("dec");
@@ -219,9 +224,13 @@ fn check_decode(input: &[u8], acc: &mut Acc) {
         }
     }
     if input.len() != 1 || input[0] >= 0x40 {
-        let mut f = Fnv::new();
-        f.bytes(input);
-        acc.nontrivial.insert(f.finish());
+        if dense {
+            acc.nontrivial_counted += 1;
+        } else {
+            let mut f = Fnv::new();
+            f.bytes(input);
+            acc.nontrivial.insert(f.finish());
+        }
     }
     acc.outcomes.insert(h.finish());
 }
@@ -383,7 +392,7 @@ pub fn run(args: &Args) -> i32 {
     let thorough = args.tier == explore::report::Tier::Thorough;
     let mut rep = Report::new("C16", args.tier, args.seed, "exploration");
     rep.exhaustive = true;
-    rep.rule = "complete enumeration of (a) values 0..=65536, +-2 around 2^6/2^14/2^30/2^62, 2^k-1/2^k/2^k+1 for all k<64, the lattice m<<s, u64::MAX through every checked constructor + encode/size/decode; (b) all 1- and 2-byte strings and every length form of every boundary value, with trailing bytes, every truncation, whole and as a two-chunk Buf split at every offset; (c) stream IDs: 4 kinds x boundary indices x boundary increments. Oracle: refimpl::varint (RFC 9000 s16, s2.1). Non-trivial = multi-byte form, truncation, refusal or saturation.".into();
+    rep.rule = "complete enumeration of (a) values 0..=65536, +-2 around 2^6/2^14/2^30/2^62, 2^k-1/2^k/2^k+1 for all k<64, the lattice m<<s, u64::MAX through every checked constructor + encode/size/decode; (b) ALL byte strings of 1, 2 and 3 bytes (thorough: and of 4 bytes) and every length form of every boundary value, with trailing bytes, every truncation, whole and as a two-chunk Buf split at every offset; (c) stream IDs: 4 kinds x boundary indices x boundary increments. Oracle: refimpl::varint (RFC 9000 s16, s2.1). Non-trivial = multi-byte form, truncation, refusal or saturation.".into();
     rep.assumptions = vec![
         "refimpl::varint is a correct transcription of RFC 9000 section 16 (self-tested against Appendix A.1)".into(),
         "values outside the enumerated sets are covered only by the structure of the codec (four straight-line branches)".into(),
@@ -423,6 +432,28 @@ pub fn run(args: &Args) -> i32 {
             check_decode(i, acc);
         }
     }));
+    // --- decode side, dense: ALL byte strings of 3 bytes (thorough: of 4 bytes), each whole and cut at every offset
+    {
+        let mut blocks: Vec<Vec<u8>> = Vec::new();
+        for a in 0..=255u8 {
+            if thorough {
+                for b in 0..=255u8 {
+                    blocks.push(vec![a, b]);
+                }
+            }
+            blocks.push(vec![a]);
+        }
+        accs.extend(explore::par::run(&blocks, Acc::new, |_, lead, acc| {
+            let mut s = lead.clone();
+            let base = s.len();
+            s.extend([0u8, 0]);
+            for x in 0..65536usize {
+                s[base] = (x >> 8) as u8;
+                s[base + 1] = x as u8;
+                check_decode_d(&s, true, acc);
+            }
+        }));
+    }
     // --- stream ids
     let top = (1u64 << 60) - 1;
     let mut indices: Vec<u64> = vec![0, 1, 2, 3, 15, 16, 63, 64, 16383, 16384, top - 2, top - 1, top, top + 1, 1 << 61, (1 << 62) - 1];
